@@ -925,6 +925,11 @@ def m_identity_deref(eng, st, fr, fn, args, t):
         if a[0] == "ref":
             return _ret(st, a)
         return _ret(st, ("ref", ("M", a), (), fn["name"] == "deref_mut"))
+    if base.startswith("glam::"):
+        # glam SIMD vectors deref to their component view: same object
+        if a[0] == "ref":
+            return _ret(st, a)
+        return _ret(st, ("ref", ("M", a), (), False))
     if base in ("bevy::prelude::Mut", "bevy::prelude::Res", "bevy::prelude::ResMut", "bevy_ecs::change_detection::Mut",
                 "bevy_ecs::change_detection::Res", "bevy_ecs::change_detection::ResMut", "bevy_ecs::world::Mut"):
         # the smart pointer value itself names the component cell
@@ -1122,11 +1127,14 @@ def m_lazy_get(eng, st, fr, fn, args, t):
 def _arith(op):
     def m(eng, st, fr, fn, args, t):
         a, b = args[0], args[1]
-        if isinstance(a, tuple) and a and a[0] == "ref":
-            a = eng.read_loc(st, a[1], a[2])
-        if isinstance(b, tuple) and b and b[0] == "ref":
-            b = eng.read_loc(st, b[1], b[2])
-        return _ret(st, ("bin", op, a, b, (fn.get("self_ty") or (fn.get("substs") or ["?"])[0])))
+        subs = fn.get("substs") or []
+        sty = (fn.get("self_ty") or (subs[0] if subs else "")).strip()
+        rty = (subs[1] if len(subs) > 1 else "").strip()
+        if sty.startswith("&") or (isinstance(a, tuple) and a and a[0] == "ref"):
+            a = eng.pointee_of(st, a)
+        if rty.startswith("&") or (isinstance(b, tuple) and b and b[0] == "ref"):
+            b = eng.pointee_of(st, b)
+        return _ret(st, ("bin", op, a, b, sty.lstrip("&").strip()))
     return m
 
 
